@@ -6,7 +6,8 @@ w=$root/work/dev_$id; rm -rf "$w"; mkdir -p "$w"
 ( cd "$root/harness" && RUSTFLAGS="--cfg burntsushi_fst_verif" cargo build --release --offline 2>&1 | grep -E "^error" -A8 )
 /usr/bin/time -f "harness %es" "$root/harness/target/release/fstv-harness" "$id" gen "$w" "$tier" "${VERIF_SEED:-1}" || exit 1
 n=$(wc -l < "$w/cases.txt")
-split -n l/16 -d "$w/cases.txt" "$w/sh"
+if [ "$4" = feed ]; then "$root/tools/feed.py" "$w/cases.txt" "$w/impl.out" "$w/fed.txt"; split -n l/16 -d "$w/fed.txt" "$w/sh"; else
+split -n l/16 -d "$w/cases.txt" "$w/sh"; fi
 t0=$(date +%s)
 for f in "$w"/sh??; do "$root/ocaml/build/model_$g" < "$f" > "$f.out" & done; wait
 cat "$w"/sh??.out > "$w/model.out"; rm -f "$w"/sh??*
